@@ -11,6 +11,7 @@
 extern "C" int LLVMFuzzerInitialize(int* argc, char*** argv) {
     fz::rewriteArgs(argc, argv);
     ComputerPlayer::initEngine(); // what texel's main() does first (piece values, TB listeners)
+    fz::runPendingReplay();
     return 0;
 }
 
